@@ -29,7 +29,8 @@ Proof. exact blocks_in_range_ascending. Qed.
    (it lists exactly the archived transactions mentioning the account) and no per-account cap reached, the
    index-accelerated path (per-account slot-window queries, ordered buffer, flush) streams exactly what the
    scan path streams.  FORCED HYPOTHESIS (stated): at most [limit] matching transactions per included account —
-   the code asks the index for at most 100 entries per account; see C19_cap_refuted and known-findings. *)
+   the pinned code asked the index for at most 100 entries per account (C19_cap_refuted; repaired in /repo: the
+   code now passes math.MaxInt, so the hypothesis holds for every input the implementation can see). *)
 Theorem C19_index_path_agrees_with_scan : forall ar lo hi f limit,
   let all := archived_txs ar lo hi in
   StronglySorted key_lt all -> keys_identify all ->
